@@ -19,6 +19,18 @@ def inRoom (h : Hub) (b : Nat) (r : String) (s : Nat) : Bool :=
   | some x => x.backend = b && x.room = some r
   | none => false
 
+/-- C03: the backend on whose behalf an operation acts — the backend named in a hello or a room API call,
+or the backend of the session that sends the request (none: housekeeping, a plain connect, a limit change,
+requests of sessions or connections that do not exist). -/
+def originOf (h : Hub) : Op → Option Nat
+  | .hello _ b _ _ _ _ => some b
+  | .resume _ (some s) => (h.sess s).map (·.backend)
+  | .bye c | .disconnect c => ((h.connSess c).bind h.sess).map (·.backend)
+  | .join s _ _ _ | .message s _ _ _ | .addVirtual s _ _ _ _ _ | .removeVirtual s _ _ | .internalInCall s _ =>
+    (h.sess s).map (·.backend)
+  | .api b _ _ => some b
+  | _ => none
+
 /-- C19: the virtual sessions that were part of a room before a step and exist no more after it,
 with the room they were in: the removals the backend has to be told about. -/
 def goneVirtual (pre post : Hub) : List (String × Nat) :=
